@@ -180,6 +180,7 @@ def tlc(module, cfg, env=None, workers=1, timeout=600, xss="1g", xmx=None, deque
     else:
         xmx = xmx or "12g"
     jopts.append("-Xmx" + xmx)
+    jopts.append("-Djava.io.tmpdir=" + meta)       # TLC's scratch directories go away with the metadir, not into /tmp
     if deque:
         jopts.append("-Dtlc2.tool.queue.IStateQueue=StateDeque")
     cmd = ["java", "-XX:+UseParallelGC"] + jopts + ["-cp", TLA_CP, "tlc2.TLC", "-workers", str(workers), "-metadir", meta,
